@@ -444,6 +444,12 @@ fn long_nests(tier: Tier) -> Vec<(String, Vec<Lp>)> {
             }
         }
     }
+    // hundreds of thousands of iterations of a loop inside a loop: whatever the loops keep per iteration
+    // must not be walked by recursion when the outer loop comes round
+    for n in tier.pick(vec![150_000usize], vec![150_000usize, 600_000]) {
+        out.push((format!("nest 00 2x{}", n), vec![mk(0, 1, 2, 0, vec![mk(0, 2, n, 0, vec![])])]));
+        out.push((format!("if1 around 0 x{} with leaf if1", n), vec![Lp::I(1, vec![mk(0, 1, n, 1, vec![])])]));
+    }
     out
 }
 
@@ -466,6 +472,13 @@ fn long_run_observed(text: &str) -> Result<std::collections::BTreeMap<String, St
 }
 
 fn long_runs(w: &mut Worker) {
+    // a case of this family may kill the process (a stack that overflows): pin it to the case
+    w.risky = true;
+    long_runs_inner(w);
+    w.risky = false;
+}
+
+fn long_runs_inner(w: &mut Worker) {
     for (name, nest) in long_nests(w.tier) {
         for generic_end in [true, false] {
             if !w.take() {
@@ -630,7 +643,7 @@ pub fn crash_sig(_case: &Value, kind: &str) -> String {
     kind.to_string()
 }
 
-pub const RULE: &str = "programs: every well-nested forest of blocks {if with 0-2 elseif and optional else, while, for-in} with 1..N blocks and depth <= 3, an emit before / inside / after every block, leaf bodies with and without an emit, condition forms {value ${c}, ${c} and ${d}, command `ans`, negated command `not ans`} uniform and rotating; single-block programs with the full product of every spelling of every keyword (alias, block-specific end, generic end, full command name), larger ones with rotated spellings so that every keyword occurrence meets each of its spellings; for every program every assignment of truth values to condition evaluations and of lengths {0,1,2} to for-in arrays with a bounded number of deviations from the default (false / empty) within a horizon of choice points. Plus long-running loop nests (while / for-in, single, nested two and three deep, two inner loops in sequence, an inner loop inside a branch with and without branches after it, a small if-block (no else / else taken / last elseif taken) in every iteration of a long loop that sits in a branch of an if / if-else / elseif chain whose later branches must not run; iteration counts {0,1,40,70,300} quick, up to 5000 thorough; generic and block-specific end) whose counters and exit trace are compared with the same nest walked in Rust. Every execution on the real runner is compared with a tree-walking interpreter of the same AST run on the same answers: emit trace with loop-variable values and final variables (loop variables after their loop and handle names masked). evaluations = rendered programs; transitions = executions; states = distinct (trace length, deviations) classes";
+pub const RULE: &str = "programs: every well-nested forest of blocks {if with 0-2 elseif and optional else, while, for-in} with 1..N blocks and depth <= 3, an emit before / inside / after every block, leaf bodies with and without an emit, condition forms {value ${c}, ${c} and ${d}, command `ans`, negated command `not ans`} uniform and rotating; single-block programs with the full product of every spelling of every keyword (alias, block-specific end, generic end, full command name), larger ones with rotated spellings so that every keyword occurrence meets each of its spellings; for every program every assignment of truth values to condition evaluations and of lengths {0,1,2} to for-in arrays with a bounded number of deviations from the default (false / empty) within a horizon of choice points. Plus long-running loop nests (while / for-in, single, nested two and three deep, two inner loops in sequence, an inner loop inside a branch with and without branches after it, a small if-block (no else / else taken / last elseif taken) in every iteration of a long loop that sits in a branch of an if / if-else / elseif chain whose later branches must not run; iteration counts {0,1,40,70,300} quick, up to 5000 thorough, plus a 150000-iteration (thorough 600000) loop inside a loop and inside an if with an else; generic and block-specific end) whose counters and exit trace are compared with the same nest walked in Rust. Every execution on the real runner is compared with a tree-walking interpreter of the same AST run on the same answers: emit trace with loop-variable values and final variables (loop variables after their loop and handle names masked). evaluations = rendered programs; transitions = executions; states = distinct (trace length, deviations) classes";
 pub const ASSUMPTIONS: &[&str] = &["ill-nested programs, arrays modified while iterated and jumps into blocks are outside the property", "value-form conditions of an if/elseif chain are computed in front of the block"];
 pub const EXHAUSTIVE: bool = true;
 pub const WALL_CAP_S: (u64, u64) = (55, 1500);
